@@ -1,7 +1,7 @@
 (* PipelineProofs.v — lemmas behind props/C16.v *)
 From Coq Require Import String Ascii List Arith NArith Bool Lia ZifyN ZifyNat ZifyBool Permutation.
 From J5V.lib Require Import Outcome Corr.
-From J5V.model Require Import Pipeline.
+From J5V.model Require Import Pipeline PipelineCompile.
 From J5V.gen Require SwaggerGen.
 Import ListNotations.
 Local Open Scope N_scope.
@@ -235,8 +235,7 @@ Proof. intro H. apply fill_request_path_spec in H. tauto. Qed.
 Section PathLaw.
 Variable to_snake : str -> str.
 
-Definition fields_of (props : list str) : list field_names :=
-  map (fun n => {| f_proto := to_snake n; f_json := n |}) props.
+Local Notation fields_of := (PipelineCompile.fields_of to_snake).
 
 (* a literal path segment: none of the characters buildMethod rejects, and no slash *)
 Definition clean_part (part : str) : Prop :=
@@ -658,6 +657,33 @@ Proof.
 Qed.
 
 (* a field type built from the alternatives of j5.schema.v1.Field *)
+(* ---------- flattened object fields ------------------------------------------------------- *)
+(* no field of any schema is a flattened object field: the client properties are the properties *)
+Definition flat_free (g : env) : Prop :=
+  forall ks, In ks g -> forall p, In p (schema_props (snd ks)) -> is_flat (p_ty p) = None.
+
+Lemma client_props_noflat g : forall fuel ps, (fuel <> 0)%nat -> (forall p, In p ps -> is_flat (p_ty p) = None) ->
+  client_props fuel g ps = Some ps.
+Proof.
+  intros fuel ps Hf. destruct fuel as [|f]; [contradiction|]. clear Hf. cbn [client_props].
+  induction ps as [|p r IH]; intro H; [reflexivity|]. cbn [fold_right].
+  rewrite IH by (intros q Hq; apply H; right; exact Hq). rewrite (H p (or_introl eq_refl)). reflexivity.
+Qed.
+
+Lemma client_env_of_noflat g : forall l, (forall ks, In ks l -> forall p, In p (schema_props (snd ks)) -> is_flat (p_ty p) = None) ->
+  client_env_of g l = Some l.
+Proof.
+  induction l as [|[k s] r IH]; intro H; [reflexivity|]. cbn [client_env_of].
+  rewrite IH by (intros ks Hks; apply H; right; exact Hks).
+  assert (Es : client_schema g s = Some s).
+  { destruct s as [ps|ps|]; cbn [client_schema]; try reflexivity.
+    rewrite client_props_noflat; [reflexivity|discriminate|]. intros p Hp. exact (H (k, SObject ps) (or_introl eq_refl) p Hp). }
+  rewrite Es. reflexivity.
+Qed.
+
+Lemma cenv_noflat g : flat_free g -> cenv g = g /\ client_env g = Some g.
+Proof. intro H. unfold cenv, client_env. rewrite (client_env_of_noflat g g H). split; reflexivity. Qed.
+
 Definition wf_ty (t : fty) : Prop := convert_ok SwaggerGen.field_alternatives t = true.
 Definition wf_props (ps : list prop) : Prop := Forall (fun p => wf_ty (p_ty p)) ps.
 
@@ -769,21 +795,9 @@ Qed.
 Section Declared.
 Variable to_snake : str -> str.
 
-Record decl_method := {
-  dm_name : str; dm_verb : N; dm_parts : list str;   (* declared path = join "/" parts *)
-  dm_props : list str;                               (* request property names *)
-  dm_raw : bool                                      (* no response declared: google.api.HttpBody *)
-}.
-
-Definition decl_path (d : decl_method) : str := join_with SLASH (dm_parts d).
-
-Definition compile_method (d : decl_method) : meth_desc :=
-  {| md_name := dm_name d; md_in_same_pkg := true;
-     md_in_name := dm_name d ++ bytes_of "Request";
-     md_out_name := if dm_raw d then bytes_of "HttpBody" else dm_name d ++ bytes_of "Response";
-     md_out_full := if dm_raw d then HTTPBODY else bytes_of "p." ++ dm_name d ++ bytes_of "Response";
-     md_http := Some (dm_verb d, to_http_path to_snake (decl_path d));
-     md_in_fields := fields_of to_snake (dm_props d) |}.
+Local Notation fields_of := (PipelineCompile.fields_of to_snake).
+Local Notation compile_method := (PipelineCompile.compile_method to_snake).
+Local Notation compile_service := (PipelineCompile.compile_service to_snake).
 
 Definition wf_decl (d : decl_method) : Prop :=
   1 <= dm_verb d <= 5 /\ dm_parts d <> [] /\ Forall (wf_part (dm_props d)) (dm_parts d)
@@ -809,12 +823,6 @@ Proof.
   unfold decl_path. rewrite (path_law to_snake (dm_props d) (dm_parts d) Hne Hf Hinj Hok).
   reflexivity.
 Qed.
-
-Record decl_service := { ds_name : str; ds_methods : list decl_method }.
-
-Definition compile_service (s : decl_service) : svc_desc :=
-  {| sd_sub := bytes_of "service"; sd_name := ds_name s ++ bytes_of "Service";
-     sd_methods := map compile_method (ds_methods s) |}.
 
 Definition declared_service (s : decl_service) : src_service :=
   {| ss_sub := bytes_of "service"; ss_name := ds_name s ++ bytes_of "Service";
@@ -853,45 +861,67 @@ Proof.
     rewrite classify_service_suffix. rewrite (omapM_build (ds_methods s) Hs). cbn [obind].
     rewrite IH. cbn [sa_services sa_topics]. rewrite <- app_assoc. reflexivity.
 Qed.
+(* topics: <Name>Topic services whose methods take <M>Message and return google.protobuf.Empty *)
+Definition declared_topic (t : decl_topic) : str * list str := (dt_name t ++ bytes_of "Topic", dt_msgs t).
+
+Lemma build_topic_method_declared m : build_topic_method (compile_topic_method m) = Ok m.
+Proof.
+  unfold build_topic_method, compile_topic_method. cbn [md_in_same_pkg md_in_name md_name md_out_full].
+  rewrite !str_eqb_refl. reflexivity.
+Qed.
+
+Lemma omapM_build_topic ms : omapM build_topic_method (map compile_topic_method ms) = Ok ms.
+Proof.
+  induction ms as [|m r IH]; [reflexivity|].
+  cbn [map omapM]. rewrite build_topic_method_declared. cbn [obind]. rewrite IH. reflexivity.
+Qed.
+
+(* addStructure on the services followed by the topics of a package *)
+Theorem add_structure_topics tops acc :
+  add_structure (map compile_topic tops) acc =
+  Ok {| sa_services := sa_services acc; sa_topics := sa_topics acc ++ map declared_topic tops |}.
+Proof.
+  revert acc. induction tops as [|t r IH]; intro acc.
+  - cbn [map add_structure]. rewrite app_nil_r. destruct acc; reflexivity.
+  - cbn [map]. change (add_structure (compile_topic t :: map compile_topic r) acc) with
+      (match classify_service (sd_name (compile_topic t)) with
+       | KService =>
+          obind (omapM build_method (sd_methods (compile_topic t))) (fun ms =>
+            add_structure (map compile_topic r)
+              {| sa_services := sa_services acc ++ [{| ss_sub := sd_sub (compile_topic t); ss_name := sd_name (compile_topic t); ss_methods := ms |}];
+                 sa_topics := sa_topics acc |})
+       | KIgnored => add_structure (map compile_topic r) acc
+       | KTopic =>
+          obind (omapM build_topic_method (sd_methods (compile_topic t))) (fun ms =>
+            add_structure (map compile_topic r)
+              {| sa_services := sa_services acc; sa_topics := sa_topics acc ++ [(sd_name (compile_topic t), ms)] |})
+       | KUnsupported => Err "unsupported service name"
+       end).
+    cbn [compile_topic sd_name sd_methods sd_sub].
+    rewrite classify_topic_suffix. rewrite omapM_build_topic. cbn [obind].
+    rewrite IH. cbn [sa_services sa_topics]. rewrite <- app_assoc. reflexivity.
+Qed.
+
+Lemma add_structure_app l1 : forall l2 acc mid,
+  add_structure l1 acc = Ok mid -> add_structure (l1 ++ l2) acc = add_structure l2 mid.
+Proof.
+  induction l1 as [|s r IH]; intros l2 acc mid H.
+  - cbn in H. injection H as <-. reflexivity.
+  - cbn [app add_structure] in *. destruct (classify_service (sd_name s)).
+    + destruct (omapM build_method (sd_methods s)) as [ms| | |]; cbn [obind] in *; try discriminate.
+      apply IH. exact H.
+    + apply IH. exact H.
+    + destruct (omapM build_topic_method (sd_methods s)) as [ms| | |]; cbn [obind] in *; try discriminate.
+      apply IH. exact H.
+    + discriminate.
+Qed.
 End Declared.
 
 (* ---------- a declared package and what the compiler emits for it ---------------- *)
 Section Package.
 Variable to_snake : str -> str.
 
-Record decl_full := {
-  df_name : str; df_verb : N; df_parts : list str;
-  df_req : list prop;                 (* request properties, in order *)
-  df_resp : option (list prop)        (* None: no response body (google.api.HttpBody) *)
-}.
-
-Definition df_decl (d : decl_full) : decl_method :=
-  {| dm_name := df_name d; dm_verb := df_verb d; dm_parts := df_parts d;
-     dm_props := map p_json (df_req d); dm_raw := match df_resp d with None => true | Some _ => false end |}.
-
-Record decl_package := {
-  dp_pkg : str;
-  dp_services : list (str * list decl_full);   (* service name without the Service suffix *)
-  dp_schemas : env                              (* the declared objects, oneofs and enums *)
-}.
-
-Definition SERVICE : str := bytes_of "service".
-
-Definition method_schemas (pkg : str) (d : decl_full) : env :=
-  ((pkg ++ DOT :: SERVICE, df_name d ++ bytes_of "Request"), SObject (df_req d))
-  :: match df_resp d with
-     | Some ps => [((pkg ++ DOT :: SERVICE, df_name d ++ bytes_of "Response"), SObject ps)]
-     | None => []
-     end.
-
-Definition all_methods (P : decl_package) : list decl_full := flat_map snd (dp_services P).
-
-Definition compile_image (P : decl_package) : image :=
-  {| im_pkg := dp_pkg P;
-     im_services := map (fun s => compile_service to_snake {| ds_name := fst s; ds_methods := map df_decl (snd s) |})
-                        (dp_services P);
-     im_schemas := flat_map (method_schemas (dp_pkg P)) (all_methods P) ++ dp_schemas P;
-     im_roots := [] |}.
+Local Notation compile_image := (PipelineCompile.compile_image to_snake).
 
 (* the paths a list method exposes: the walk over the item object of the response's array *)
 Definition declared_list (g : env) (d : decl_full) : option (list (list str * fty)) :=
@@ -923,6 +953,7 @@ Definition valid_package (P : decl_package) : Prop :=
   (* every reference is to a declared schema, every field type is a Field alternative *)
   /\ all_refs_link (im_schemas (compile_image P)) = true
   /\ wf_env (im_schemas (compile_image P))
-  (* declared schema names are not those of request/response messages *)
-  /\ (forall k, In k (map fst (dp_schemas P)) -> fst k <> dp_pkg P ++ DOT :: SERVICE).
+  (* no flattened object fields (the client's merging of flattened objects is modelled and tied, but is not
+     part of this theorem) *)
+  /\ flat_free (im_schemas (compile_image P)).
 End Package.
